@@ -83,6 +83,10 @@ pub struct Sc {
     pub twin_entries: Vec<Entry>,
     #[serde(default)]
     pub twin_chunk: usize,
+    /// before the last checks the collection is printed into a sink that reports an
+    /// error after this many bytes; the prints that follow must not notice
+    #[serde(default)]
+    pub sink_fail_at: Option<usize>,
 }
 
 pub struct Rendered {
@@ -725,6 +729,7 @@ impl Property for C09 {
                 clone_mode: 0,
                 twin_entries: Vec::new(),
                 twin_chunk: 0,
+                sink_fail_at: None,
             };
             let len = render(&sc).bytes.len();
             let lens: Vec<usize> = match rng.below(4) {
@@ -767,6 +772,7 @@ impl Property for C09 {
             clone_mode: rng.below(3) as u8,
             twin_entries: Vec::new(),
             twin_chunk: 0,
+            sink_fail_at: None,
         };
         if rng.chance(1, 4) {
             let k = rng.urange(1, 2);
@@ -774,6 +780,9 @@ impl Property for C09 {
             sc.twin_chunk = *rng.pick(&[1usize, 1, 2, 3, 5, 16]);
         }
         let rend = render(&sc);
+        if rng.chance(1, 4) {
+            sc.sink_fail_at = Some(if rng.chance(1, 2) { rng.urange(0, 64) } else { rng.urange(0, rend.bytes.len()) });
+        }
         match driver {
             Driver::Direct => {
                 sc.chunks = gen_partition(rng, &rend.bytes, true);
@@ -1065,6 +1074,34 @@ impl Property for C09 {
                         sink.inner
                     );
                 }
+                // ... and when an earlier print was abandoned by a sink that reported an
+                // error part-way (a closed pipe): the next print is complete and exact
+                if let Some(limit) = sc.sink_fail_at {
+                    if mon.drained.is_empty() {
+                        let mut sink = crate::seams::FailingSink::new(limit.min(bytes.len()));
+                        use std::fmt::Write as _;
+                        let r = write!(sink, "{}", mon.stream);
+                        ctx.fault("sink_error");
+                        if r.is_err() {
+                            ctx.probe("print-abandoned-by-a-failing-sink");
+                        }
+                        ensure!(
+                            bytes.starts_with(sink.out.as_bytes()) && (r.is_err() || sink.out.as_bytes() == &bytes[..]),
+                            "print-differs-from-stream",
+                            "a sink that fails after {} bytes received {} bytes that are no prefix of the stream",
+                            limit,
+                            sink.out.len()
+                        );
+                        let again = mon.stream.to_string();
+                        ensure!(
+                            again.as_bytes() == &bytes[..],
+                            "print-differs-from-stream",
+                            "the print after one abandoned by a failing sink has {} bytes (stream: {} bytes)",
+                            again.len(),
+                            bytes.len()
+                        );
+                    }
+                }
                 // re-feeding the output through another partition gives the same entries
                 match feed_direct(printed.as_bytes(), &sc.refeed) {
                     Ok(s2) => {
@@ -1167,6 +1204,9 @@ impl Property for C09 {
         }
         if sc.flush_every.is_some() {
             push!(Sc { flush_every: None, ..sc.clone() });
+        }
+        if sc.sink_fail_at.is_some() {
+            push!(Sc { sink_fail_at: None, ..sc.clone() });
         }
         if sc.driver == Driver::Copy {
             // same partition through direct writes
